@@ -204,3 +204,24 @@ def default_cfg(rng=None, counts=(1, 1, 1, 1, 1)):
                    gnb_name="".join(rng.choice("abcdefgh-XYZ019") for _ in range(rng.choice([1, 7, 40]))),
                    gnb_gtp="10.%d.%d.%d" % (rng.below(256), rng.below(256), rng.range(1, 254)))
     return cfg
+
+
+def registration_runs(chk, binary, cfgs, what):
+    """process-level registrations of the real main() against the strict reference AMF, reported under the calling check:
+    each property whose subject (identities, keys, ...) is decided inside RegisterUE also sees the procedure itself"""
+    import concurrent.futures as cf
+    with cf.ThreadPoolExecutor(max_workers=8) as ex:
+        runs = list(ex.map(lambda c: run(binary, c, chk.seed & 0xffff, strict=True), cfgs))
+    rows = []
+    for c, r in zip(cfgs, runs):
+        ok = r["rc"] == 0 and r["verdict"].startswith("ok") and not r["findings"]
+        rows.append({"imsi": c["imsi"], "mcc": c["mcc"], "mnc": c["mnc"], "verdict": r["verdict"], "rc": r["rc"]})
+        with chk._lock:
+            chk.cov["evaluations"] += 1
+            chk._distinct.add("registration-%s-%s" % (c["imsi"], c["mnc"]))
+        if not ok:
+            chk.violation({"theorem_or_stream": "process: registration against the reference AMF (%s)" % what,
+                           "input": {k: (v.hex() if isinstance(v, bytes) else v) for k, v in c.items()},
+                           "observed": {"verdict": r["verdict"], "rc": r["rc"], "findings": r["findings"], "stdout": r["stdout"][-600:]},
+                           "why": "the reference AMF did not accept the registration the emulator performed for this configuration"})
+    chk.cov["registration_runs"] = rows
